@@ -152,6 +152,26 @@ def limiter_cells() -> dict:
     return _closure_cells(T.PortTransport.write_frame)
 
 
+def all_limiter_cells() -> list[dict]:
+    """Every closure in the transport module that carries the duty-cycle / sync-avoidance state, wherever the decorators
+    happen to be applied (so that a refactoring of write_frame does not leak state from one run into the next)."""
+    import inspect
+
+    found: list[dict] = []
+    seen: set[int] = set()
+    for _n, obj in list(vars(T).items()):
+        members = [obj] if inspect.isfunction(obj) else (list(vars(obj).values()) if inspect.isclass(obj) else [])
+        for fn in members:
+            fn = getattr(fn, "__func__", fn)
+            if not callable(fn) or id(fn) in seen:
+                continue
+            seen.add(id(fn))
+            cells = _closure_cells(fn)
+            if "bits_in_bucket" in cells or "times_0" in cells:
+                found.append(cells)
+    return found
+
+
 def silence_logging() -> None:
     """Silence by level, never logging.disable(): the packet log goes through logging."""
     root = logging.getLogger()
@@ -179,12 +199,12 @@ def reset_world(loop=None, *, drift: float = 0.0, seed: int = 0) -> None:
     _vl.WEDGE[0] = None
 
     # transmit limiter closure + sync-cycle tracker
-    cells = limiter_cells()
-    if "bits_in_bucket" in cells:
-        cells["bits_in_bucket"].cell_contents = 38400 * T.MAX_DUTY_CYCLE_RATE * T.DUTY_CYCLE_DURATION
-        cells["last_time_bit_added"].cell_contents = clock.v_perf()
-    if "times_0" in cells:
-        cells["times_0"].cell_contents.clear()
+    for cells in all_limiter_cells() or [limiter_cells()]:
+        if "bits_in_bucket" in cells:
+            cells["bits_in_bucket"].cell_contents = 38400 * T.MAX_DUTY_CYCLE_RATE * T.DUTY_CYCLE_DURATION
+            cells["last_time_bit_added"].cell_contents = clock.v_perf()
+        if "times_0" in cells:
+            cells["times_0"].cell_contents.clear()
     T._global_sync_cycles.clear()
     T._global_sync_cycles = type(T._global_sync_cycles)(maxlen=T._MAX_TRACKED_SYNCS)
     T.MIN_INTER_WRITE_GAP = _ORIG_MIN_GAP
